@@ -3,10 +3,12 @@ package main
 // C09 — written Spec files read back equal, in both encodings.
 
 import (
+	"encoding/json"
 	"fmt"
 	"math"
 	"math/rand"
 	"os"
+	"os/exec"
 	"path/filepath"
 	"strings"
 
@@ -327,6 +329,43 @@ func checkC09(c *Ctx) {
 		}
 		c.Sample(4, map[string]any{"field": field, "class": class, "value": val})
 	})
+	// "accepted for writing" is what WriteSpec's result says: when the data cannot be
+	// written in full (file size limit at offset k, in a child process) a reported
+	// success still has to read back equal
+	exe, _ := os.Executable()
+	c.RunCases("short-write", c.pick(24, 200), 4, func(cs *Case) {
+		r := cs.R
+		s := genSpec(r, SpecGen{Marker: "sw", Plain: true, Vendor: "vendor.com", Class: "gpu"})
+		sub := filepath.Join(dir, sanitize(cs.Name))
+		must(os.MkdirAll(filepath.Join(sub, "specs"), 0o755))
+		defer os.RemoveAll(sub)
+		specFile := filepath.Join(sub, "spec.json")
+		b, _ := json.Marshal(s)
+		must(os.WriteFile(specFile, b, 0o644))
+		name := "sw." + pickStr(r, "json", "yaml")
+		full := len(specBytes(s, filepath.Ext(name)[1:]))
+		k := []int{0, 1, 7, full / 3, full / 2, full - 1, full + 4096}[r.Intn(7)]
+		cmd := exec.Command(exe, "child-c10write", filepath.Join(sub, "specs"), name, specFile, fmt.Sprint(k))
+		err := cmd.Run()
+		code := 0
+		if ee, ok := err.(*exec.ExitError); ok {
+			code = ee.ExitCode()
+		} else if err != nil {
+			c.Inconclusive("exec")
+			return
+		}
+		c.Count("writes_under_a_file_size_limit", 1)
+		if code != 0 {
+			c.Count("writes_under_a_file_size_limit_reported_as_failed", 1)
+			return
+		}
+		rs, rerr := cdi.ReadSpec(filepath.Join(sub, "specs", name), 0)
+		if rerr != nil || exactJSON(rs.Spec) != exactJSON(s) {
+			data, _ := os.ReadFile(filepath.Join(sub, "specs", name))
+			cs.Violation("unreadable", map[string]string{"field": "short-write", "class": "short-write"}, fmt.Sprintf("WriteSpec reported success with the file size limited to %d bytes, but %s (%d bytes on disk) does not read back equal: %v", k, name, len(data), rerr), map[string]any{"spec": s, "limit": k, "file_content": clip(string(data), 3000)})
+		}
+	})
+	c.Floor("writes_under_a_file_size_limit", 10)
 	c.Floor("roundtrips_ok", 1000)
 	c.Floor("large_specs", 2)
 	c.Floor("catalogue_strings_x_fields", 2000)
